@@ -258,11 +258,20 @@ def run(ctx):
                               'constructing %s failed with %s: %s' % (app_names, type(err).__name__, err),
                               {'app': app_names, 'error': repr(err)})
                 continue
+            # SOAP over HTTP also carries a SOAPAction header: the BODY names the method, whatever the header says
+            registered = sorted(n for n, fns in row['table'].items() if fns)
             for local in cands:
-                for ns in ('none', 'tns', 'other'):
+              for ns in ('none', 'tns', 'other'):
+                actions = [None]
+                if fam == 'soap11':
+                    other = [n for n in registered if n != local][:1]
+                    actions += ['"%s"' % n for n in other] + ['"tns/%s"' % n for n in other] + ['""', 'zz']
+                for action in actions:
                     env = build(local, ns)
                     if env is None:
                         continue
+                    if action is not None:
+                        env['HTTP_SOAPACTION'] = action
                     want = list(row['table'].get(local, [])) if ns in ('none', 'tns') else []
                     COUNTS.clear()
                     st = []
